@@ -100,6 +100,7 @@ func newSegment(path string, baseOffset, maxBytes int64, isNew bool, suffix stri
 	s.position = info.Size()
 	s.writer = log
 	s.reader = log
+	verifCrashPoint("segment.after_open_log")
 	err = s.setupIndex()
 	return s, err
 }
